@@ -27,7 +27,7 @@ ESC == 27
 DefCol == <<0, 0>>
 
 Garbage == [cp |-> -2, comb |-> <<>>, w |-> 1, fg |-> DefCol, bg |-> DefCol, at |-> 0, us |-> 0,
-            uc |-> DefCol, link |-> <<>>, acs |-> FALSE, st |-> -1]
+            uc |-> DefCol, link |-> <<>>, acs |-> FALSE, st |-> -1, er |-> FALSE]
 
 NoQuirks == [ffclear |-> FALSE, sgrfont |-> FALSE]
 
@@ -55,7 +55,7 @@ ClrBit(n, b) == IF HasBit(n, b) THEN n - b ELSE n
 (* Grid operations *)
 
 Blank(t) == [cp |-> 32, comb |-> <<>>, w |-> 1, fg |-> t.fg, bg |-> t.bg, at |-> 0, us |-> 0,
-             uc |-> DefCol, link |-> <<>>, acs |-> FALSE, st |-> t.stamp]
+             uc |-> DefCol, link |-> <<>>, acs |-> FALSE, st |-> t.stamp, er |-> TRUE]
 
 \* overwrite cell i; the other half of a wide glyph that loses a half becomes GARBAGE
 Put(g, i, c) ==
@@ -81,7 +81,7 @@ PrintCp(t, cp) ==
         y    == IF wrap /\ ~scr THEN t.cy + 1 ELSE t.cy
         i    == Idx(t, x, y)
         cell == [cp |-> cp, comb |-> <<>>, w |-> w, fg |-> t.fg, bg |-> t.bg, at |-> t.at, us |-> t.us,
-                 uc |-> t.uc, link |-> t.link, acs |-> AcsOn(t), st |-> t.stamp]
+                 uc |-> t.uc, link |-> t.link, acs |-> AcsOn(t), st |-> t.stamp, er |-> FALSE]
     IN IF w = 2 /\ x + 1 >= t.W
        THEN \* no room (auto-wrap off, or a one-column screen): the glyph is clipped
             [t EXCEPT !.g = Put(t.g, i, [Garbage EXCEPT !.st = t.stamp]),
